@@ -64,7 +64,9 @@ check('C04', 'proof',
       'Frame obligations for every function of the four modules, decided on the real AST: no global statement, no store or mutating call through a '
       'module-level name, module and class bodies hold only definitions and immutable constants, mutable defaults/module objects never mutated, '
       'per-instance state created from fresh displays in __init__/clear, scripts executed in a copy of the instance context; no engine function '
-      'writes through an attribute of an object other than self or one it has just built (terms and atoms may be shared between engines). Non-interference then '
+      'writes through an attribute of an object other than self or one it has just built (terms and atoms may be shared between engines), the public '
+      'API does not change its arguments in place, the atom table is private to atom() (verified against the table), query keeps no per-engine '
+      'bookkeeping, and evaluate_bounded puts the interpreter-wide limit back on every exit edge. Non-interference then '
       'follows from the frame rule (paper). Threads are not modelled.',
       'Trusted: the AST frame checker (vf/props/compilerp.py), A-PY-ATTR (no monkey-patching). The thread clause rests on the GIL and is only exercised by a bounded two-thread run.',
       'frame/ownership contracts checked on the real AST (modifies-sets), plus bounded two-engine interleaving exploration', 'DESIGN 5/C04')
@@ -89,7 +91,8 @@ check('C09', 'proof',
       'when there is none; findall yields once iff the bag unifies with makelist of the collected copies, after the goal iterator is exhausted; \\= '
       'yields once with no iterator suspended iff query(=) has no answer; = is su (C02); _set_builtin_predicates registers call for every arity '
       '(call_n), once_1, findall_3, =_2, \\=_2. Inline goals reach the builtins through compile_body/compile_predicate (one query(name, args) '
-      'loop per goal), which are verified here as in C01.',
+      'loop per goal), which are verified here as in C01; the unification family and the copy functions (findall instances are fresh copies) '
+      'are part of the check.',
       _ENG_NOTE, _VC + '; bounded differential runs of meta-call programs', 'DESIGN 5/C09')
 check('C10', 'proof',
       'Typestate obligations proved on the real body of _compile_prolog_from_stream: lexer and parser get an error listener whose syntaxError is a '
@@ -114,7 +117,9 @@ check('C12', 'proof',
       'Provenance: every read of source-derived text in the compiler flows into a lexical sink (repr literal, integer literal, checked identifier); '
       'names of called functions in emitted code are compiler literals; the $CUTIF marker is rejected in source for every arity (visitTermpredicate '
       'verified: an accepted goal is never read by compile_body as its internal marker); variables cannot capture engine names '
-      '(visitVARIABLE contract); the script context is a per-instance copy with empty __builtins__; YP.query refuses API names for definitions.',
+      '(visitVARIABLE contract) and every variable of a clause is declared before it is read (variables properties + compile_function_body); the '
+      'script context is a per-instance copy with empty __builtins__; YP.query refuses API names for definitions and call/once/findall/\\= run '
+      'their goal through query.',
       'Assumed: A-CPY-REPR, A-PYGRAMMAR, A-EXT-EXEC. Trusted: AST checkers, SMT string solvers.',
       'taint/provenance obligations on the real AST + string-theory contracts on the sinks; bounded hostile-atom corpus', 'DESIGN 5/C12')
 check('C13', 'proof',
@@ -154,7 +159,8 @@ check('C17', 'proof',
 check('C18', 'proof',
       'Self-composition by congruence, decided on the real AST: no function reachable from the compile entry points uses a choice primitive '
       '(iteration over sets, hash, id, random, time, environment) or reads module-/class-level mutable state; all stateful objects and counters are '
-      'created per call; no function is wrapped by a state-holding decorator and none stores into the caller\'s options object; only modules whose '
+      'created per call; the returned text is the code generator\'s result and nothing else; no function is wrapped by a state-holding decorator and '
+      'none stores into the caller\'s options object; only modules whose '
       'functions are functions of their arguments are imported (no cache such as linecache, no clock, no file-system lookups). Debug streams (not the '
       'returned text) print object addresses and are outside the statement.',
       'Assumed: ANTLR runtime deterministic, dict insertion order, str/list primitives functional. Trusted: the AST checker.',
